@@ -148,6 +148,10 @@ CORPUS = [
                                  {"t": "g", "name": "Hadamard", "params": [], "wires": [1]}, {"t": "mcm", "wire": 1, "reset": True, "postselect": 1},
                                  {"t": "g", "name": "RX", "params": [A1], "wires": [1]}],
      "meas": [{"k": "probs", "wires": [1, 0]}]},
+    # a postselected outcome that is impossible below one branch of an earlier measurement of the same wire (recorded finding for tree-traversal)
+    {"nw": 2, "nm": 2, "steps": [{"t": "g", "name": "RY", "params": [A1], "wires": [1]}, {"t": "mcm", "wire": 1, "reset": False, "postselect": None},
+                                 {"t": "mcm", "wire": 1, "reset": False, "postselect": 0}, {"t": "g", "name": "RX", "params": [A2], "wires": [0]}],
+     "meas": [{"k": "expval", "word": ["Z"], "wires": [1]}, {"k": "expval", "word": ["Y"], "wires": [0]}]},
 ]
 for ci in range(ncase):
     nw = rng.choice([1, 2, 2, 3])
